@@ -7,7 +7,7 @@ import re
 from harness import core
 
 GEN = ['gen_tables', 'gen_regex', 'gen_config']
-THEOREMS = ['C06_tables', 'C06_flanking', 'C06_closed_by', 'C06_bounded_alpha5_7', 'C06_bounded_star_under_12']
+THEOREMS = ['C06_simple_emphasis', 'C06_simple_emphasis_hypotheses', 'C06_tables', 'C06_flanking', 'C06_closed_by', 'C06_bounded_alpha5_7', 'C06_bounded_star_under_12']
 TRUSTED = ['Spec/Delims.v: the CommonMark 0.30 delimiter algorithm written from the specification appendix (the yardstick)',
            'the model of core_tokens.py / span_tokenizer.py (tied by X-doc and X-inline)',
            'vm_compute for the kernel sweeps (33 shard files)']
@@ -109,6 +109,26 @@ def run(ctx, only=None):
     wide = list('ab *_') + ['**', '__', '.', ',', '!', '(', ')', '"', ' ', '　', '\t', '1', '9', '¡', '«', '»', '—', 'é', '中', '-', "'"]
     rnd = [''.join(rng.choice(wide) for _ in range(rng.randint(1, 40))) for _ in range(20000 if ctx.quick() else 300000)]
     compare(ctx, rnd, 'random_wide')
+    # the class of the unbounded theorem C06_simple_emphasis: one pair of delimiter runs around plain text of any length
+    pieces = ['a', 'Zed', 'x1', 'é', '中', 'two words', 'q, r', 'a-b', 'c+d', 'e=f', '2.5', 'end', 'h% i', 'j? k', 'l:m', 'n;o', "p'q", 'r"s', '(t) u', 'v/w']
+    simple, want = [], []
+    for _ in range(4000 if ctx.quick() else 60000):
+        w = ' '.join(rng.choice(pieces) for _ in range(rng.randint(1, 12)))
+        if not (w[0].isalnum() and w[-1].isalnum()):
+            continue
+        ch, dbl = rng.choice('*_'), rng.random() < 0.5
+        run_ = ch * (2 if dbl else 1)
+        simple.append(run_ + w + run_)
+        want.append(('<strong>%s</strong>' if dbl else '<em>%s</em>') % w)
+    with mp.Pool(core.NPROC) as pool:
+        got = [x for part in pool.map(impl_emph, chunks(simple, 2000)) for x in part]
+    for t_, g, e in zip(simple, got, want):
+        ctx.count('evaluations')
+        ctx.count('strings_simple_emphasis')
+        if g != e:
+            ctx.failing.append({'interface': 'oracle(simple emphasis)', 'input': {'text': t_}, 'what': 'one pair of delimiter runs around plain text is not one emphasis',
+                                'observed': g, 'expected': e, 'kf': None})
+    compare(ctx, simple[:2000], 'simple_emphasis_vs_spec')
     ctx.count('distinct_nontrivial', sum(1 for s in texts if len(re.findall(r'\*+|_+', s)) >= 2))
     ctx.sample({'text': '*a **b c** d*', 'implementation': impl_emph(['*a **b c** d*'])[0]})
 
